@@ -2,17 +2,11 @@
     -inline is off: the fuel of the emitter exceeds the size of every body, the rules countRules marks are closed under
     the names in their bodies (Proofs/CountReach.v), and nothing is compiled in place. *)
 From PegV Require Import Base.Tac Spec.Syntax Model.Analyses Model.Emit Model.SEmit Proofs.EmitWF Proofs.EmitUse Proofs.CountReach.
+From PegV Require Export Model.Premises.
 From Coq Require Import List Arith Lia Bool.
 Import ListNotations.
 
-(** every name in a rule body stands for a rule or an action *)
-Definition closed_names (g : grammar) : Prop :=
-  forall r b, nth_error g r = Some (RBody b) -> forall r', In r' (names_of b) -> exists rb, nth_error g r' = Some rb /\ rb <> RNil.
-
-Definition closed_names_b (g : grammar) : bool :=
-  forallb (fun rb => match rb with
-                     | RBody b => forallb (fun r' => match nth_error g r' with Some RNil | None => false | _ => true end) (names_of b)
-                     | _ => true end) g.
+(** every name in a rule body stands for a rule or an action: [closed_names] (Model/Premises.v) *)
 Lemma closed_names_b_ok g : closed_names_b g = true -> closed_names g.
 Proof.
   intros H r b Hb r' Hr'. unfold closed_names_b in H. rewrite forallb_forall in H.
